@@ -404,29 +404,30 @@ func sortSlice(m *Machine, args []Value, g *Term, site ssa.Instruction) Value {
 	}
 	et := sliceElemType(inT)
 	_ = et
-	if len(c.Alts) != 1 {
-		panic(notEncoded("sort.Slice on a slice with several backings"))
-	}
-	a := c.Alts[0]
 	for round := 0; round < n; round++ {
 		for i := round % 2; i+1 < n; i += 2 {
 			inRange := Slt(ConstI(64, int64(i+1)), c.Len)
-			cg := And(g, a.G, inRange)
+			cg := And(g, inRange)
 			if cg.IsFalse() {
 				continue
 			}
 			// swap if less(i+1, i)
 			r := m.callFuncV(less, []Value{ConstI(64, int64(i+1)), ConstI(64, int64(i))}, cg, site).(*Term)
-			sw := And(cg, r)
-			if sw.IsFalse() {
-				continue
+			for _, a := range c.Alts {
+				sw := And(cg, a.G, r)
+				if sw.IsFalse() {
+					continue
+				}
+				arr := a.Obj.val.(*ArrayV)
+				if a.Off+i+1 >= len(arr.E) {
+					continue
+				}
+				x, y := arr.E[a.Off+i], arr.E[a.Off+i+1]
+				na := &ArrayV{E: append([]Value{}, arr.E...)}
+				na.E[a.Off+i] = mergeValue(sw, y, x)
+				na.E[a.Off+i+1] = mergeValue(sw, x, y)
+				a.Obj.val = na
 			}
-			arr := a.Obj.val.(*ArrayV)
-			x, y := arr.E[a.Off+i], arr.E[a.Off+i+1]
-			na := &ArrayV{E: append([]Value{}, arr.E...)}
-			na.E[a.Off+i] = mergeValue(sw, y, x)
-			na.E[a.Off+i+1] = mergeValue(sw, x, y)
-			a.Obj.val = na
 		}
 	}
 	return nil
